@@ -381,6 +381,49 @@ theorem C17_deque_fixed_refines_list (n : Nat) (log : List Ev) (s s' : St) (e : 
   subst he
   exact pop_false_only_if_empty_G hi t a d hpc hstep hret
 
+/-- Event log of the **repaired** code under the directed schedule of the finding
+    (`findings/C17-aba-link.case`, node addresses renamed 1, 2, 3; note the link tags that now
+    survive recycling, e.g. `.rd 1 ⟨2, 7⟩`). -/
+def fixedAbaLog : List Ev :=
+  [.inv 0 true true 3, .alloc 0 1, .inv 1 true false 1, .alloc 1 2, .ld 1 ⟨0, 0, 0, 0⟩,
+   .cas 1 true, .ret 1 true 0, .inv 1 true false 2, .alloc 1 3, .ld 1 ⟨2, 2, 0, 1⟩, .link 1 3 2,
+   .cas 1 true, .rd 1 ⟨2, 2⟩, .chk 1 true, .rd 1 ⟨0, 1⟩, .chk 1 true, .lcas 1 true, .cas 1 true,
+   .ret 1 true 0, .inv 1 false true 0, .ld 1 ⟨3, 2, 0, 3⟩, .chk 1 true, .rd 1 ⟨3, 2⟩, .cas 1 true,
+   .ld 0 ⟨3, 3, 0, 4⟩, .link 0 1 3, .cas 0 true, .rd 0 ⟨3, 2⟩, .chk 0 true, .rd 0 ⟨2, 2⟩,
+   .chk 0 true, .free 1 2, .ret 1 true 1, .inv 1 false false 0, .ld 1 ⟨3, 1, 1, 5⟩, .rd 1 ⟨3, 2⟩,
+   .chk 1 true, .rd 1 ⟨2, 2⟩, .chk 1 true, .lcas 1 true, .cas 1 true, .ld 1 ⟨3, 1, 0, 6⟩,
+   .chk 1 true, .rd 1 ⟨1, 3⟩, .cas 1 true, .free 1 3, .ret 1 true 2, .inv 1 true true 4,
+   .alloc 1 3, .ld 1 ⟨1, 1, 0, 7⟩, .link 1 3 1, .cas 1 true, .rd 1 ⟨1, 3⟩, .chk 1 true,
+   .rd 1 ⟨0, 1⟩, .chk 1 true, .lcas 1 true, .cas 1 true, .ret 1 true 0, .inv 1 true true 5,
+   .alloc 1 2, .ld 1 ⟨1, 3, 0, 9⟩, .link 1 2 3, .cas 1 true, .rd 1 ⟨3, 4⟩, .chk 1 true,
+   .rd 1 ⟨0, 4⟩, .chk 1 true, .lcas 1 true, .cas 1 true, .ret 1 true 0, .inv 1 false false 0,
+   .ld 1 ⟨1, 2, 0, 11⟩, .chk 1 true, .rd 1 ⟨3, 2⟩, .cas 1 true, .free 1 1, .ret 1 true 3,
+   .inv 1 false false 0, .ld 1 ⟨3, 2, 0, 12⟩, .chk 1 true, .rd 1 ⟨2, 5⟩, .cas 1 true, .free 1 3,
+   .ret 1 true 4, .inv 1 true false 6, .alloc 1 3, .ld 1 ⟨2, 2, 0, 13⟩, .link 1 3 2, .cas 1 true,
+   .rd 1 ⟨2, 7⟩, .chk 1 true, .rd 1 ⟨3, 4⟩, .lcas 0 false, .ret 0 true 0, .done 0, .cas 1 true,
+   .ret 1 true 0, .inv 1 false false 0, .ld 1 ⟨3, 2, 0, 15⟩, .chk 1 true, .rd 1 ⟨2, 7⟩,
+   .cas 1 true, .free 1 3, .ret 1 true 6, .inv 1 false false 0, .ld 1 ⟨2, 2, 0, 16⟩, .cas 1 true,
+   .free 1 2, .ret 1 true 5, .done 1]
+
+/-- **The directed schedule that failed before passes after the repair.**  The log of the repaired
+    code under the schedule of the finding is an accepted log of the repaired model in which thread
+    0's late link CAS fails (`.lcas 0 false` — the only difference in control flow to `abaLog`), all
+    six values are popped exactly once, the deque ends empty, no link CAS was stale; and the pinned
+    tree's model does not accept this log (the tie tells the two disciplines apart). -/
+theorem C17_deque_fixed_aba_schedule :
+    (runLog stepF (init 2) fixedAbaLog).map (fun s => (s.pushed, s.popped, s.chain, s.stale, s.pc 0, s.pc 1)) =
+      some ([6, 5, 4, 3, 2, 1], [5, 6, 4, 3, 2, 1], [], false, .fin, .fin) ∧
+    runLog step (init 2) fixedAbaLog = none ∧ runLog stepF (init 2) abaLog = none := by
+  refine ⟨by decide, ?_, ?_⟩
+  · have h : (runLog step (init 2) fixedAbaLog).isSome = false := by decide
+    cases hx : runLog step (init 2) fixedAbaLog with
+    | none => rfl
+    | some x => simp [hx] at h
+  · have h : (runLog stepF (init 2) abaLog).isSome = false := by decide
+    cases hx : runLog stepF (init 2) abaLog with
+    | none => rfl
+    | some x => simp [hx] at h
+
 /-! ## Non-vacuity -/
 
 /-- single-threaded: push_left 1, push_left 2 (with its stabilisation), pop_right returns 1 -/
